@@ -40,6 +40,87 @@ def _ident_built(fn, pattern, args, span):
     return False
 
 
+def _ident_text(fn, e, env=None, depth=0):
+    """the text an identifier-building expression yields, with `<expr>` for each formatted argument: a `format_ident!`
+    (named, inline or positional arguments; `span =` ignored), or a call of a same-file helper that is one, its
+    parameters replaced by the arguments (string literals spliced in). None when not understood."""
+    env = env or {}
+    e = A.peel(e)
+    if depth > 3:
+        return None
+    k = A.kind(e)
+
+    def sub(text):
+        for n_, v_ in env.items():
+            text = re.sub(r"(?<![\w.])%s\b" % re.escape(n_), lambda _m: v_ if not v_.startswith('"') else v_, text)
+        return text.replace(" ", "")
+
+    if k == "Expr::Path":
+        nm = A.path_str(e)
+        if nm in env and env[nm].startswith('"'):
+            return env[nm][1:-1]
+        als = A.aliases(fn)
+        if nm in als:
+            return _ident_text(fn, als[nm][0], env, depth + 1)
+        return None
+    if k == "Expr::Macro" and A.path_last(e["mac"]["path"]) == "format_ident":
+        toks = e["mac"]["tokens"]
+        if not toks or A.kind(toks[0]) != "Literal":
+            return None
+        pat = toks[0]["lit"].get("value") or ""
+        args, cur = [], []
+        for t_ in toks[1:]:
+            if A.kind(t_) == "Punct" and A.punct_char(t_) == ",":
+                if cur:
+                    args.append(cur)
+                cur = []
+            else:
+                cur.append(t_)
+        if cur:
+            args.append(cur)
+        named, pos = {}, []
+        for a_ in args:
+            if len(a_) >= 2 and A.kind(a_[0]) == "Ident" and A.kind(a_[1]) == "Punct" and A.punct_char(a_[1]) == "=" and not (len(a_) > 2 and A.kind(a_[2]) == "Punct" and A.punct_char(a_[2]) == "="):
+                named[a_[0]["sym"]] = A.tokens_text(a_[2:])
+            else:
+                pos.append(A.tokens_text(a_))
+        named.pop("span", None)
+        als = A.aliases(fn)
+        it = iter(pos)
+
+        def ph(m_):
+            nm = m_.group(1)
+            if nm == "":
+                v = next(it, None)
+            elif nm in named:
+                v = named[nm]
+            else:
+                v = nm
+            if v is None:
+                return "<?>"
+            v = v.replace(" ", "")
+            if v in env and env[v].startswith('"'):
+                return env[v][1:-1]
+            v = A.inline_text(v, als).replace(" ", "") if v in als else v
+            return "<" + sub(v) + ">"
+
+        return re.sub(r"\{(\w*)\}", ph, pat)
+    if k == "Expr::Call":
+        nm = A.path_str(e["func"]) or ""
+        hs = [g for g in A.functions(fn.file) if g.name == nm and "::" not in g.qual and g.block is not None and g is not fn]
+        if len(hs) == 1 and len(hs[0].block["stmts"]) == 1 and A.kind(hs[0].block["stmts"][0]) == "Stmt::Expr":
+            prm = [x for p_ in hs[0].node["sig"]["inputs"] if A.kind(p_) == "FnArg::Typed" for x in A.pat_idents(p_["0"]["pat"])]
+            if len(prm) == len(e["args"]):
+                als = A.aliases(fn)
+                env2 = {}
+                for pn, a_ in zip(prm, e["args"]):
+                    a_ = A.peel(a_)
+                    r_ = A.render(a_)
+                    env2[pn] = r_ if A.kind(a_) == "Expr::Lit" else A.inline_text(r_, als).replace(" ", "").lstrip("&")
+                return _ident_text(hs[0], hs[0].block["stmts"][0]["0"], env2, depth + 1)
+    return None
+
+
 def rule_accessors(ctx):
     """ACC: IsVariant / Unwrap / TryUnwrap build, per enabled variant, method name, pattern and error text from that one variant; the success arm returns exactly the binders of its own pattern, in field order; the fall-through arm binds the whole value (`val @ _`) and re-matches it against *all* variants (ignored ones too) so that every value yields a panic message / an error carrying the original value; owned/ref/ref_mut forms are emitted as configured."""
     # --- is_variant
@@ -47,7 +128,14 @@ def rule_accessors(ctx):
     w = ctx.where(fn.file, fn.node)
     t = A.fn_text(fn)
     tt = texts(fn)
-    need(ctx, "is_variant:loop", "for variant_state in state.enabled_variant_data().variant_states{let variant=variant_state.variant.unwrap()" in t, w, "IsVariant no longer iterates over the enabled variants (ignored variants must get no method)")
+    # the method template is produced once per element of `state.enabled_variant_data().variant_states` (for-loop or
+    # iterator chain alike, aliases inlined), from that element's variant
+    qm = next((m_ for m_, _ in A.find(fn.block, ("Expr::Macro", "Stmt::Macro")) if A.path_last(m_["mac"]["path"]) == "quote" and "fn_name" in A.tokens_text(m_["mac"]["tokens"])), None)
+    it_ = A.iteration_of(qm, fn.block) if qm is not None else None
+    als_ = A.aliases(fn)
+    src_ = A.inline_text(it_[0], als_).replace(" ", "") if it_ else None
+    loop_ok = bool(it_) and re.sub(r"\.(iter|into_iter)\(\)$", "", src_).lstrip("&") == "state.enabled_variant_data().variant_states" and any(A.wfull(A.render_stmt(x).rstrip(";"), f"let variant={it_[1]}.variant.unwrap()") for x in it_[2] if A.kind(x) == "Stmt::Local")
+    need(ctx, "is_variant:loop", loop_ok or "for variant_state in state.enabled_variant_data().variant_states{let variant=variant_state.variant.unwrap()" in t, w, "IsVariant no longer iterates over the enabled variants (ignored variants must get no method)")
     need(ctx, "is_variant:same-variant", _ident_built(fn, "is_{}", ["variant.ident.unraw().to_string().to_case(Case::Snake)"], "variant.ident.span()") and "let variant_ident=&variant.ident" in t and "let data_pattern=match variant.fields{" in t, w, "method name, matched path and data pattern are no longer all taken from the variant being iterated")
     need(ctx, "is_variant:matches", any("pubconstfn#fn_name(&self)->bool{derive_more::core::matches!(self,#enum_name::#variant_ident#data_pattern)}" in s for s in tt), w, "`is_x()` is no longer `matches!(self, Enum::X <pattern>)`", {"templates": tt})
     need(ctx, "is_variant:patterns", "{..}" in tt and "(..)" in tt and "" in tt, w, "data patterns `{..}` / `(..)` / (unit) changed")
@@ -74,7 +162,8 @@ def rule_accessors(ctx):
             need(
                 ctx,
                 f"{kind_}:{nm}",
-                re.search(r'let %s=format_ident!\("%s_\{\}%s",%s\.ident\.unraw\(\)\.to_string\(\)\.to_case\(Case::Snake\),span=%s\.ident\.span\(\)\)' % (nm, kind_, pre, re.escape(V), re.escape(V)), ti.replace(" ", "").replace("let" + nm, "let " + nm)) is not None,
+                re.search(r'let %s=format_ident!\("%s_\{\}%s",%s\.ident\.unraw\(\)\.to_string\(\)\.to_case\(Case::Snake\),span=%s\.ident\.span\(\)\)' % (nm, kind_, pre, re.escape(V), re.escape(V)), ti.replace(" ", "").replace("let" + nm, "let " + nm)) is not None
+                or (nm in als and _ident_text(fn, als[nm][0]) == f"{kind_}_<{V}.ident.unraw().to_string().to_case(Case::Snake)>{pre}"),
                 w,
                 f"{kind_}: `{nm}` is not `{kind_}_<snake_case(variant)>{pre}`",
             )
@@ -98,6 +187,10 @@ def rule_accessors(ctx):
             var = A.path_str(A.peel(mc_["args"][0]))
             b_ = TY.resolve(fn, var, (A.span_of(mc_) or [0])[0])
             init = A.render(b_["init"]) if b_ is not None and b_.get("init") is not None else ""
+            # an instance of a local template closure (`method(.., quote!{ &mut }, ..)`): read the instantiated template
+            for c__, t__ in T.closure_instances(fn):
+                if b_ is not None and b_.get("init") is not None and A.peel(b_["init"]) is c__:
+                    init = T.ir_text(t__.ir)
             form = "ref_mut" if "(&mut self)" in init or "(&mutself)" in init.replace(" ", "") else "ref_" if "(&self)" in init.replace(" ", "") else "owned" if "(self)" in init.replace(" ", "") else None
             if form:
                 gate[form] = GF.canon_text(RJ.site_formula(fn, mc_, ps_))
@@ -666,7 +759,9 @@ def rule_delegation(ctx):
                 depth += 1
                 st = st["elem"]
             body = " ".join(A.fn_text(f_) for f_ in A.functions(lib) if f_.impl is it)
-            if body.strip() == "frm":
+            # identity: the body is the method's own value parameter, whatever it is called
+            prm_ = {x for f_ in A.functions(lib) if f_.impl is it for p_ in f_.node["sig"]["inputs"] if A.kind(p_) == "FnArg::Typed" for x in A.pat_idents(p_["0"]["pat"])}
+            if body.strip() in prm_:
                 ident_refs.add(depth)
             else:
                 fwd_refs.add(depth)
